@@ -13,7 +13,9 @@
      universe <content>* / ids <id>*  -> ok   (the finite universe the boolean statements range over)
      holds05                          -> c05_holds_on on the current state and ids
      putholds05 <id> <tm> <chunk>*    -> c05_put_holds_on (the Put is not applied)
-     (putf appends " | holds=" and c12_holds_on of the state before, the plan and the Put)
+     putbf <k> <kind> <j> <id> <tm> <chunk>*   as putf, for PutBytes (the model's put_bytes_prog)
+     (putf / putbf append " | holds=" and c12_holds_on of the state before, the plan and the Put,
+      then " fds=" and the number of descriptors the call leaves open, or "stopped")
      tlook get|getbytes|getfile|outputfile <id>  -> <result> | <operations performed>
      get <id>                         -> NF | F out size tm   (numbers: 0 | +<binary> | -<binary>)
      getbytes <id>                    -> NF | F data out size tm
@@ -72,6 +74,41 @@ let show_entry = function
   | None -> "NF"
   | Some ((out, size), tm) -> Printf.sprintf "F %s %s %s" (hex_of_bytes out) (show_z size) (show_z tm)
 
+(* one Put-like program under a fault plan: result, operations performed, the boolean form of the
+   C12 statement on this very run, and the descriptors the call leaves open (fd_leak) *)
+let faulty_put k kind j id p small =
+      ignore (path_of "a" id);
+      let jn = nat_of_int (int_of_string j) in
+      let fk = match kind with
+        | "fail" -> FFail | "short" -> FShort jn | "stopbefore" -> FStopBefore
+        | "stopafter" -> FStopAfter | "torn" -> FTorn jn | _ -> failwith "bad kind" in
+      let b = if int_of_string k < 0 then None else Some (nat_of_int (int_of_string k), fk) in
+      let tr = trace_f b p !store in
+      let ((fs', oc), _) = run_f b p !store in
+      (* the third execution of the program is skipped on big contents (cost) *)
+      let fds = if not small then "" else
+        match fd_leak b p !store with None -> " fds=stopped" | Some n -> " fds=" ^ string_of_int (int_of_nat n) in
+      (* c12_holds_on = c12_post_holds_on on the post-state of this very run *)
+      let holds = c12_post_holds_on h !universe !idlist !store fs' (bytes_of_hex id) in
+      store := fs';
+      let kind_of = function IdxP _ -> "a" | DatP o -> ignore (path_of "d" (hex_of_bytes o)); "d" in
+      let show_op = function
+        | OStat p -> "stat:" ^ kind_of p
+        | OOpen (p, c, t) -> "open:" ^ kind_of p ^ ":" ^ (if c then "c" else "") ^ (if t then "t" else "")
+        | ORead (p, off, n) -> Printf.sprintf "read:%s:%d:%d" (kind_of p) (int_of_nat off) (int_of_nat n)
+        | OReadAll p -> "readall:" ^ kind_of p
+        | OWrite (p, off, b) -> Printf.sprintf "write:%s:%d:%d" (kind_of p) (int_of_nat off) (List.length b)
+        | OTruncate (p, n) -> Printf.sprintf "truncate:%s:%d" (kind_of p) (int_of_nat n)
+        | OClose p -> "close:" ^ kind_of p
+        | ORemove p -> "remove:" ^ kind_of p
+        | OChtimes p -> "chtimes:" ^ kind_of p in
+      let res = match oc with
+        | Stopped -> "STOPPED"
+        | Done PutErrEarly -> "DONE PUTERR"
+        | Done (PutFailed (out, size)) -> Printf.sprintf "DONE PUTFAILED %s %d" (hex_of_bytes out) (int_of_nat size)
+        | Done (PutOk (out, size)) -> Printf.sprintf "DONE PUTOK %s %d" (hex_of_bytes out) (int_of_nat size) in
+      res ^ " | " ^ String.concat " " (List.map show_op tr) ^ " | holds=" ^ string_of_bool holds ^ fds
+
 let handle = function
   | ["hash"; c; v] -> Hashtbl.replace table (string_of_bytes (arg c)) (bytes_of_hex v); "ok"
   | ["def"; n; c] -> Hashtbl.replace defs n (Array.of_list (bytes_of_hex c)); "ok"
@@ -94,35 +131,12 @@ let handle = function
   | "putf" :: k :: kind :: j :: id :: tm :: seek1 :: ok1 :: pass1 :: seek2 :: chunks ->
       let rd = { rd_seek1 = bool_of seek1; rd_pass1 = arg pass1; rd_ok1 = bool_of ok1;
                  rd_seek2 = bool_of seek2; rd_pass2 = List.map arg chunks } in
-      ignore (path_of "a" id);
-      let jn = nat_of_int (int_of_string j) in
-      let fk = match kind with
-        | "fail" -> FFail | "short" -> FShort jn | "stopbefore" -> FStopBefore
-        | "stopafter" -> FStopAfter | "torn" -> FTorn jn | _ -> failwith "bad kind" in
-      let b = if int_of_string k < 0 then None else Some (nat_of_int (int_of_string k), fk) in
-      let p = put_prog h (bytes_of_hex id) rd (z_of_int (int_of_string tm)) in
-      let tr = trace_f b p !store in
-      let ((fs', oc), _) = run_f b p !store in
-      (* c12_holds_on = c12_post_holds_on on the post-state of this very run *)
-      let holds = c12_post_holds_on h !universe !idlist !store fs' (bytes_of_hex id) in
-      store := fs';
-      let kind_of = function IdxP _ -> "a" | DatP o -> ignore (path_of "d" (hex_of_bytes o)); "d" in
-      let show_op = function
-        | OStat p -> "stat:" ^ kind_of p
-        | OOpen (p, c, t) -> "open:" ^ kind_of p ^ ":" ^ (if c then "c" else "") ^ (if t then "t" else "")
-        | ORead (p, off, n) -> Printf.sprintf "read:%s:%d:%d" (kind_of p) (int_of_nat off) (int_of_nat n)
-        | OReadAll p -> "readall:" ^ kind_of p
-        | OWrite (p, off, b) -> Printf.sprintf "write:%s:%d:%d" (kind_of p) (int_of_nat off) (List.length b)
-        | OTruncate (p, n) -> Printf.sprintf "truncate:%s:%d" (kind_of p) (int_of_nat n)
-        | OClose p -> "close:" ^ kind_of p
-        | ORemove p -> "remove:" ^ kind_of p
-        | OChtimes p -> "chtimes:" ^ kind_of p in
-      let res = match oc with
-        | Stopped -> "STOPPED"
-        | Done PutErrEarly -> "DONE PUTERR"
-        | Done (PutFailed (out, size)) -> Printf.sprintf "DONE PUTFAILED %s %d" (hex_of_bytes out) (int_of_nat size)
-        | Done (PutOk (out, size)) -> Printf.sprintf "DONE PUTOK %s %d" (hex_of_bytes out) (int_of_nat size) in
-      res ^ " | " ^ String.concat " " (List.map show_op tr) ^ " | holds=" ^ string_of_bool holds
+      faulty_put k kind j id (put_prog h (bytes_of_hex id) rd (z_of_int (int_of_string tm))) (List.length rd.rd_pass1 <= 8192)
+  | "putbf" :: k :: kind :: j :: id :: tm :: chunks ->
+      (* PutBytes: the model's put_bytes_prog (Put from a source that cannot misbehave) *)
+      let cs = List.map arg chunks in
+      faulty_put k kind j id (put_bytes_prog h (bytes_of_hex id) cs (z_of_int (int_of_string tm)))
+        (List.fold_left (fun a c -> a + List.length c) 0 cs <= 8192)
   | "conc" :: rest ->
       (* conc C <call>* C <call>* ... S <i>[:<j>]*   with <call> = put <id> <tm> <n> <chunk>^n | get|getbytes|getfile <id> *)
       let rec calls acc = function
